@@ -17,10 +17,16 @@ def single_return(fn, what):
     return body[0].value
 
 
+SCOPES = {}          # flag -> True when the text is searched in the decorator lines only (`self._decorator_lines`)
+
+
 def needle_in_source(expr, what):
-    """`'<needle>' in self.source` -> needle"""
+    """`'<needle>' in self.source` / `'<needle>' in self._decorator_lines` -> needle (the scope is recorded in SCOPES[what])"""
     if isinstance(expr, ast.Compare) and isinstance(expr.ops[0], ast.In) and isinstance(expr.left, ast.Constant) \
-            and isinstance(expr.left.value, str) and ast.unparse(expr.comparators[0]) == 'self.source':
+            and isinstance(expr.left.value, str) and ast.unparse(expr.comparators[0]) in ('self.source', 'self._decorator_lines'):
+        header = ast.unparse(expr.comparators[0]) == 'self._decorator_lines'
+        if SCOPES.setdefault(what, header) != header:
+            raise Skip(f'{what}: the needles are searched in different texts')
         return expr.left.value
     raise Skip(f'{what}: not of the form `<str> in self.source`')
 
@@ -103,12 +109,14 @@ def gen_calltables(repo):
     if listed is None:
         raise Skip('FUNCTIONS_THAT_REQUIRE_KWARGS not found')
 
+    SCOPES.clear()
     static_needle = needle_in_source(single_return(find_func(df, 'is_static_method', 'DecoratedFunction'), 'is_static_method'), 'is_static_method')
     args_needle = needle_in_source(single_return(find_func(df, 'wants_args', 'DecoratedFunction'), 'wants_args'), 'wants_args')
     setter = single_return(find_func(df, 'is_property_setter', 'DecoratedFunction'), 'is_property_setter')
     if not (isinstance(setter, ast.Compare) and isinstance(setter.ops[0], ast.In) and isinstance(setter.left, ast.JoinedStr)
-            and ast.unparse(setter.comparators[0]) == 'self.source'):
+            and ast.unparse(setter.comparators[0]) in ('self.source', 'self._decorator_lines')):
         raise Skip('is_property_setter: not of the form f"...{self.name}..." in self.source')
+    SCOPES['is_property_setter'] = ast.unparse(setter.comparators[0]) == 'self._decorator_lines'
     parts = setter.left.values
     if not (len(parts) == 3 and isinstance(parts[0], ast.Constant) and isinstance(parts[1], ast.FormattedValue)
             and ast.unparse(parts[1].value) == 'self.name' and isinstance(parts[2], ast.Constant)):
@@ -119,6 +127,10 @@ def gen_calltables(repo):
         ped_needles = [needle_in_source(v, 'is_pedantic') for v in isped.values]
     else:
         ped_needles = [needle_in_source(isped, 'is_pedantic')]
+    if any(SCOPES.values()):        # `_decorator_lines` must be the text in front of the first 'def', as num_of_decorators reads it
+        dl = single_return(find_func(df, '_decorator_lines', 'DecoratedFunction'), '_decorator_lines')
+        if ast.unparse(dl) != "self.source.split('def')[0]":
+            raise Skip('_decorator_lines: unexpected expression ' + ast.unparse(dl))
     nod = single_return(find_func(df, 'num_of_decorators', 'DecoratedFunction'), 'num_of_decorators')
     txt = ast.unparse(nod)
     if txt != "len(re.findall('@', self.source.split('def')[0]))":
@@ -263,6 +275,11 @@ def gen_calltables(repo):
     L.append(f'def setterPrefix : String := {lean_str(setter_prefix)}')
     L.append(f'def setterSuffix : String := {lean_str(setter_suffix)}')
     L.append('def pedanticNeedles : List String := [' + ', '.join(lean_str(x) for x in ped_needles) + ']')
+    L.append('/-- which text each predicate searches: the decorator lines (the source in front of the first `def`) or the whole source -/')
+    L.append(f'def staticInHeader : Bool := {lean_bool(SCOPES.get("is_static_method", False))}')
+    L.append(f'def argsInHeader : Bool := {lean_bool(SCOPES.get("wants_args", False))}')
+    L.append(f'def setterInHeader : Bool := {lean_bool(SCOPES.get("is_property_setter", False))}')
+    L.append(f'def pedanticInHeader : Bool := {lean_bool(SCOPES.get("is_pedantic", False))}')
     L.append("/-- num_of_decorators = number of '@' in the source text before the first 'def' -/")
     L.append('def decoratorMark : String := "@"\ndef decoratorSplit : String := "def"')
     L.append('/-- `DecoratedFunction.should_have_kwargs`, translated -/')
